@@ -143,6 +143,7 @@ int main(int argc, char **argv) {
         /* life cycle of the installed source: closing or stirring the generator between two uses does not replace the source the
          * caller installed - the replay must still be served by it */
         if (variant == 1) randombytes_close(); else if (variant == 2) randombytes_stir();
+        if (variant) fprintf(v_out, "{\"e\":\"life\",\"op\":\"%s\",\"active\":\"%s\"}\n", variant == 1 ? "close" : "stir", randombytes_implementation_name());
         run_gen(gi, out2, &l2);
         int same = l1 == l2 && memcmp(out, out2, l1) == 0 && nreq == nr && !strcmp(randombytes_implementation_name(), "verif-scripted");
         for (size_t i = 0; i < used; i++) script[i] ^= 0x5c;
